@@ -187,6 +187,10 @@ fn matches_known(k: &KnownFinding, prop: &str, v: &Violation) -> bool {
 // Exploration
 // ----------------------------------------------------------------------
 
+/// Memory guard for the set of distinct signatures (u64 each).
+const SIG_CAP_LOCAL: usize = 1_500_000;
+const SIG_CAP_TOTAL: usize = 12_000_000;
+
 struct Found {
     index: u64,
     tape: Vec<u64>,
@@ -375,7 +379,9 @@ pub fn run_check(check: &dyn Check, opt: &Options) -> i32 {
                     local.evals += 1;
                     if out.nontrivial {
                         local.nontrivial += 1;
-                        local.sigs.insert(out.sig);
+                        if local.sigs.len() < SIG_CAP_LOCAL {
+                            local.sigs.insert(out.sig);
+                        }
                     }
                     for (k, v) in out.counters {
                         *local.counters.entry(k).or_insert(0) += v;
@@ -404,7 +410,9 @@ pub fn run_check(check: &dyn Check, opt: &Options) -> i32 {
                 let mut a = agg.lock().unwrap();
                 a.evals += local.evals;
                 a.nontrivial += local.nontrivial;
-                a.sigs.extend(local.sigs);
+                if a.sigs.len() < SIG_CAP_TOTAL {
+                    a.sigs.extend(local.sigs);
+                }
                 for (k, v) in local.counters {
                     *a.counters.entry(k).or_insert(0) += v;
                 }
@@ -506,6 +514,7 @@ pub fn run_check(check: &dyn Check, opt: &Options) -> i32 {
         .set("evaluations", a.evals)
         .set("distinct_nontrivial", a.sigs.len())
         .set("nontrivial_runs", a.nontrivial)
+        .set("distinct_count_capped", a.sigs.len() >= SIG_CAP_TOTAL)
         .set("rule", check.rule())
         .set("samples", J::Arr(samples))
         .set("exhaustive", check.exhaustive(opt.tier) && !capped.load(Ordering::Relaxed) && exit == 0)
